@@ -209,6 +209,9 @@ def prepare(ob):
         extra += [sum_lemma_axiom(n) for n in lem if n != "POW_MONO"]
         if "SUM" not in smt:
             extra += sum_axioms_nonrecursive()
+    if "IDENT" in smt:
+        from .core import ident_axiom
+        extra.append(ident_axiom())
     if "PICKLE" in smt or "VERIFIED_" in smt or "SHA256HEX" in smt:
         from . import oslib
         extra += oslib.axioms()
